@@ -1005,6 +1005,26 @@ fn main() {
             }
             println!("ok extremes");
         }
+        "line_intersection_zero_length" => {
+            use geo::line_intersection::{line_intersection, LineIntersection};
+            use geo::Intersects;
+            let seg = Line::new(coord! {x: 0.0, y: 0.0}, coord! {x: 6.0, y: 4.0});
+            for ((x, y), on) in [((3.0, 1.0), false), ((3.0, 2.0), true), ((0.0, 0.0), true), ((6.0, 4.0), true), ((5.0, 1.0), false), ((9.0, 6.0), false)] {
+                let pt = Line::new(coord! {x: x, y: y}, coord! {x: x, y: y});
+                for (a, b) in [(pt, seg), (seg, pt)] {
+                    let r = line_intersection(a, b);
+                    let ok = match r {
+                        None => !on,
+                        Some(LineIntersection::SinglePoint { intersection, .. }) => on && intersection == pt.start,
+                        Some(LineIntersection::Collinear { intersection }) => on && intersection.start == pt.start && intersection.end == pt.start,
+                    };
+                    if !ok || a.intersects(&b) != on {
+                        fail(format!("{:?} x {:?}: line_intersection {:?}, intersects {}, point on segment: {on}", a, b, r, a.intersects(&b)));
+                    }
+                }
+            }
+            println!("ok zero-length operands");
+        }
         _ => {
             eprintln!("unknown op {op}");
             std::process::exit(4);
